@@ -112,8 +112,8 @@ pub fn random_raw(rng: &mut StdRng) -> RawBoard {
         let rank = if r.side == Color::White { 3 } else { 4 };
         r.ep_source = Some(Coord::from_index(rank * 8 + rng.gen_range(0..8)));
     }
-    r.move_counter = *[0u16, 1, 9, 10, 99, 100, 65535, 12345].choose(rng).unwrap();
-    r.move_number = *[0u16, 1, 9, 10, 99, 100, 65535, 777].choose(rng).unwrap();
+    r.move_counter = *[0u16, 1, 9, 10, 99, 100, 999, 1000, 9999, 10000, 10001, 65535, 12345].choose(rng).unwrap();
+    r.move_number = *[0u16, 1, 9, 10, 99, 100, 999, 1000, 9999, 10000, 10001, 65535, 777].choose(rng).unwrap();
     r
 }
 
